@@ -43,6 +43,7 @@ type CacheCfg struct {
 	Collide    bool     `json:"collide,omitempty"`   // every key hashes to the same bucket and meta byte
 	Hashes     []uint64 `json:"hashes,omitempty"`    // per-key hash override (index = key)
 	NoHandlers bool     `json:"no_handlers,omitempty"`
+	SampleSize uint64   `json:"sample_size,omitempty"` // small-scope sample period of the hill climber (sequential runs only)
 }
 
 func (c CacheCfg) String() string {
